@@ -10,7 +10,7 @@ Open Scope N_scope.
 Theorem c03_accounting : forall H expected nblocks plen n l,
   let s := run H expected nblocks plen (init n) l in
   (st_count s, st_alloc s) = acct plen 0 (st_pieces s).
-Proof. intros H expected nblocks plen n l. exact (proj2 (run_inv H expected nblocks plen n l)). Qed.
+Proof. exact accounting_all. Qed.
 Print Assumptions c03_accounting.
 
 (* No buffer is freed while it is being hashed: eviction skips a busy piece and deletion waits. *)
